@@ -221,7 +221,7 @@ structure ByteNumState where
 deriving Repr
 
 def byteNumStep (st : ByteNumState) (c : Char) : Outcome ByteNumState :=
-  if Garnish.Gen.CharRanges.isNumeric c || c == '_' then
+  if Garnish.Gen.CharRanges.isAlphanumeric c || c == '_' then
     .ok { st with currentNumber := c :: st.currentNumber }
   else if c == ' ' && st.currentNumber.length > 0 then       -- `current_number.len() > 0` (bytes; same truth value)
     Outcome.bind (parseSimpleNumber parseFloat st.currentNumber.reverse) fun n =>
